@@ -231,6 +231,12 @@ def check_simulation(case):
                        float(np.sum(vol * np.abs(s.data)))))
 
     dt, n = case["dt"], case["steps"]
+    if case["solver"] in ("implicit", "crank-nicolson"):
+        # the fixed-point iterations of these solvers only converge for dt*|L| < 1; keep the
+        # (documented) ConvergenceError rare instead of rejecting a fifth of the cases
+        dxmin = min((hi - lo) / k for (lo, hi), k in zip(axes_bounds(gspec), gspec["shape"]))
+        limit = 0.1 * dxmin**2 / max(p, 1.0) if case["eq"] in ("diffusion", "expr-div") else 0.02 * dxmin**4 / max(p, 1.0)
+        dt = min(dt, limit)
     trackers = [pde.CallbackTracker(observe, interrupts=dt)]
     if case["tracker"] in ("material", "both"):
         trackers.append(pde.trackers.MaterialConservationTracker(interrupts=dt))
